@@ -60,7 +60,12 @@ def suiteGoWrap (_kvs : List (String × String)) (lines : List (String × String
         if isPanic && (ctx == "none" || ctx == "after") && caller != "fn:" ++ out.fmt then
           some "a panic raised under Go did not reach the caller with its value although the context had not ended"
         else none
-      let parts := (match v with | none => [] | some msg => ["C18:" ++ msg]) ++ (match c10 with | none => [] | some msg => ["C10:" ++ msg])
+      -- the function is always started (C18: its outcome must be surfaced; C08: pass-through circuits RUN the function)
+      let notStarted := (kvGet rk "started") == some "0"
+      let passThrough := kvBool kvs "nilc" false || kvBool kvs "dis" false
+      let v := v.orElse fun _ => if notStarted then some "the wrapped function was never started" else none
+      let c08 : Option String := if notStarted && passThrough then some "Go on a nil / zero-value / Disabled circuit did not run the function" else none
+      let parts := (match v with | none => [] | some msg => ["C18:" ++ msg]) ++ (match c10 with | none => [] | some msg => ["C10:" ++ msg]) ++ (match c08 with | none => [] | some msg => ["C08:" ++ msg])
       m ++ "\t" ++ (if parts.isEmpty then "-" else "!" ++ "|".intercalate parts)
 
 end CM
